@@ -621,3 +621,392 @@ fn verif_c10_query_long() {
 fn verif_c10_query_short() {
     crate::ipa_verif::proto::run_suite("c10_query_short", crate::ipa_verif::c10::gen_query_short, c10_query::exec);
 }
+
+// ---------------------------------------------------------------------------------------------
+// C19 — resharding of input streams that are NOT always ready: the real `reshard_aad` (private module
+// `reshard_tag`; its `StreamSplitter` sits between the input stream and `reshard_try_stream`), and
+// `reshard_try_stream` / `reshard_stream` called directly, on input streams that answer `Poll::Pending`
+// at scripted positions ("whatever the timing").
+//
+//   c19.stall <aad|try|stream> <sh|mal> <n> <dests> <hints> <errs> <stalls>
+//     n, dests, hints, errs   as in `c19.reshard` (hints / errs must be `-` for `stream`)
+//     stalls  one list per shard, `/`-separated; list = `-` or comma separated entries `<pos>[d][@<h>]`:
+//             the input stream of that shard answers `Pending` once more before it yields its item
+//             number <pos> (items are counted from 0, an `Err` item counts; <pos> = number of items:
+//             before the end of the stream). An entry may be repeated: that many `Pending` answers in a
+//             row. Plain entry: the stream wakes its task at once (`wake_by_ref`); `d`: the wake-up comes
+//             ~1 ms later from another task; `@<h>`: only on helper <h> (0, 1, 2) — the three helpers'
+//             inputs then differ in timing.
+//   Record k of shard s: data record = the share of s*1000+k (BA64); for `aad` its tag is the plain
+//   value 500000+s*1000+k, the same on the three helpers, and the picker looks the destination up by
+//   the TAG it is handed (`dests[tag's shard][tag's position]`; a tag that arrives with a record id other
+//   than its position in the stream is sent to the NEXT shard instead); for `try`/`stream` the record itself is
+//   resharded and the picker uses (shard, record id) as in `c19.reshard`.
+//   Response, per shard `/`-separated:
+//     aad          `<kept data records>;<tags received>` (reconstructed / plain; `-` = empty)
+//     try, stream  `<records received>`
+//     `!` all three helpers returned Err, `~` all three still waiting when the window closed (3 s when
+//     the request injects a failure, 15 s otherwise), `mixed` helpers disagree.
+// ---------------------------------------------------------------------------------------------
+pub mod c19_aad {
+    use std::{
+        pin::Pin,
+        sync::Arc,
+        task::{Context as TaskContext, Poll},
+        time::Duration,
+    };
+
+    use futures::{Stream, stream};
+
+    use super::super::reshard_tag::reshard_aad;
+    use crate::{
+        error::Error,
+        ff::{U128Conversions, boolean_array::BA64},
+        helpers::Role,
+        ipa_verif::{
+            c19::{BySizes, Hinted, gen_dests, parse_lists, run_isolated, set_sizes, show_lists},
+            proto::*,
+        },
+        protocol::{
+            RecordId,
+            context::{Context, ShardedContext, reshard_stream, reshard_try_stream},
+        },
+        secret_sharing::replicated::semi_honest::AdditiveShare as Replicated,
+        sharding::{ShardConfiguration, ShardIndex},
+        test_fixture::{Reconstruct, Runner, TestWorld, TestWorldConfig, WithShards},
+    };
+
+    pub const TAG_BASE: u128 = 500_000;
+
+    #[derive(Clone, Copy, Debug)]
+    pub struct Stall {
+        pos: usize,
+        delayed: bool,
+        helper: Option<usize>,
+    }
+
+    /// Yields the items of `inner`, answering `Pending` at the scripted positions first.
+    struct Stalled<S> {
+        inner: Pin<Box<S>>,
+        yielded: usize,
+        /// sorted by position
+        stalls: Vec<Stall>,
+        next: usize,
+    }
+
+    impl<S: Stream> Stream for Stalled<S> {
+        type Item = S::Item;
+
+        fn poll_next(mut self: Pin<&mut Self>, cx: &mut TaskContext<'_>) -> Poll<Option<Self::Item>> {
+            let this = &mut *self;
+            if let Some(st) = this.stalls.get(this.next).copied() {
+                if st.pos == this.yielded {
+                    this.next += 1;
+                    if st.delayed {
+                        let w = cx.waker().clone();
+                        tokio::spawn(async move {
+                            tokio::time::sleep(Duration::from_millis(1)).await;
+                            w.wake();
+                        });
+                    } else {
+                        cx.waker().wake_by_ref();
+                    }
+                    return Poll::Pending;
+                }
+            }
+            let r = this.inner.as_mut().poll_next(cx);
+            if let Poll::Ready(Some(_)) = r {
+                this.yielded += 1;
+            }
+            r
+        }
+
+        fn size_hint(&self) -> (usize, Option<usize>) {
+            self.inner.size_hint()
+        }
+    }
+
+    fn parse_stalls(s: &str) -> Vec<Vec<Stall>> {
+        s.split('/')
+            .map(|l| {
+                if l == "-" {
+                    return vec![];
+                }
+                let mut v: Vec<Stall> = l
+                    .split(',')
+                    .map(|e| {
+                        let (e, helper) = match e.split_once('@') {
+                            Some((a, h)) => (a, Some(h.parse().unwrap())),
+                            None => (e, None),
+                        };
+                        let (e, delayed) = match e.strip_suffix('d') {
+                            Some(a) => (a, true),
+                            None => (e, false),
+                        };
+                        Stall { pos: e.parse().unwrap(), delayed, helper }
+                    })
+                    .collect();
+                v.sort_by_key(|s| s.pos);
+                v
+            })
+            .collect()
+    }
+
+    pub struct Case {
+        func: String,
+        dests: Vec<Vec<u32>>,
+        hints: Vec<i64>,
+        errs: Vec<Option<usize>>,
+        stalls: Vec<Vec<Stall>>,
+    }
+
+    type Out = Result<(Vec<Replicated<BA64>>, Vec<BA64>), String>;
+
+    fn role_index(r: Role) -> usize {
+        match r {
+            Role::H1 => 0,
+            Role::H2 => 1,
+            Role::H3 => 2,
+        }
+    }
+
+    /// what one helper does on one shard
+    async fn shard_call<C: ShardedContext>(ctx: C, shard_input: Vec<Replicated<BA64>>, case: Arc<Case>, window: Duration) -> Out {
+        let me = usize::from(ctx.shard_id());
+        let helper = role_index(ctx.role());
+        assert_eq!(shard_input.len(), case.dests[me].len(), "harness: input distribution");
+        let len = shard_input.len();
+        let stalls: Vec<Stall> = case.stalls.get(me).cloned().unwrap_or_default().into_iter().filter(|s| s.helper.is_none_or(|h| h == helper)).collect();
+        let extra = case.hints.get(me).copied().unwrap_or(0);
+        let hint = usize::try_from((len as i64 + extra).max(0)).unwrap();
+        let err_at = case.errs.get(me).copied().flatten();
+        let table = case.dests.clone();
+        let func = case.func.clone();
+        let res = tokio::time::timeout(window, async move {
+            match func.as_str() {
+                "aad" => {
+                    let mut items: Vec<Result<(Replicated<BA64>, BA64), Error>> = shard_input
+                        .into_iter()
+                        .enumerate()
+                        .map(|(k, v)| Ok((v, BA64::truncate_from(TAG_BASE + (me * 1000 + k) as u128))))
+                        .collect();
+                    if let Some(pos) = err_at {
+                        items.insert(pos.min(len), Err(Error::InconsistentShares));
+                    }
+                    let input = Hinted { inner: Box::pin(Stalled { inner: Box::pin(stream::iter(items)), yielded: 0, stalls, next: 0 }), hint };
+                    let shards = table.len();
+                    let picker = move |_: C, rid: RecordId, tag: &BA64| {
+                        let t = usize::try_from(tag.as_u128() - TAG_BASE).unwrap();
+                        let d = table[t / 1000][t % 1000] as usize;
+                        // the record id handed to the picker is the position of the record in the input stream (stalls
+                        // consume no ids): otherwise the tag is deliberately misrouted, which the oracle reports
+                        let d = if usize::from(rid) == t % 1000 { d } else { (d + 1) % shards };
+                        ShardIndex::from(d as u32)
+                    };
+                    reshard_aad(ctx, input, picker).await.map_err(|e| format!("{e:?}"))
+                }
+                "try" => {
+                    let mut items: Vec<Result<Replicated<BA64>, Error>> = shard_input.into_iter().map(Ok).collect();
+                    if let Some(pos) = err_at {
+                        items.insert(pos.min(len), Err(Error::InconsistentShares));
+                    }
+                    let input = Hinted { inner: Box::pin(Stalled { inner: Box::pin(stream::iter(items)), yielded: 0, stalls, next: 0 }), hint };
+                    let picker = move |c: C, rid: RecordId, _: &Replicated<BA64>| ShardIndex::from(table[usize::from(c.shard_id())][usize::from(rid)]);
+                    reshard_try_stream(ctx, input, picker).await.map(|v| (v, vec![])).map_err(|e| format!("{e:?}"))
+                }
+                "stream" => {
+                    // `reshard_stream` wants an `ExactSizeStream`: the wrapper the code base itself uses for streams of known length
+                    let input = crate::helpers::stream::FixedLength::new(Stalled { inner: Box::pin(stream::iter(shard_input)), yielded: 0, stalls, next: 0 }, len);
+                    let picker = move |c: C, rid: RecordId, _: &Replicated<BA64>| ShardIndex::from(table[usize::from(c.shard_id())][usize::from(rid)]);
+                    reshard_stream(ctx, input, picker).await.map(|v| (v, vec![])).map_err(|e| format!("{e:?}"))
+                }
+                f => panic!("harness: unknown function {f}"),
+            }
+        })
+        .await;
+        match res {
+            Ok(r) => r,
+            Err(_) => Err("~".to_string()),
+        }
+    }
+
+    fn show_vals(v: Vec<BA64>) -> String {
+        nat_list(&v.into_iter().map(|x| x.as_u128()).collect::<Vec<_>>())
+    }
+
+    async fn run_n<const N: usize>(mode: String, case: Case) -> String {
+        let input: Vec<BA64> = case
+            .dests
+            .iter()
+            .enumerate()
+            .flat_map(|(s, l)| (0..l.len()).map(move |k| BA64::truncate_from((s * 1000 + k) as u128)))
+            .collect();
+        set_sizes(case.dests.iter().map(Vec::len).collect());
+        let faulty = case.errs.iter().any(Option::is_some) || case.hints.iter().any(|h| *h < 0);
+        let window = Duration::from_secs(if faulty { 3 } else { 15 });
+        let world: TestWorld<WithShards<N, BySizes>> = TestWorld::with_shards(TestWorldConfig::default().with_timeout_secs(60));
+        let aad = case.func == "aad";
+        let case = Arc::new(case);
+        let r: Vec<[Out; 3]> = if mode == "mal" {
+            world.malicious(input.into_iter(), |ctx, shard_input: Vec<Replicated<BA64>>| shard_call(ctx, shard_input, Arc::clone(&case), window)).await
+        } else {
+            world.semi_honest(input.into_iter(), |ctx, shard_input: Vec<Replicated<BA64>>| shard_call(ctx, shard_input, Arc::clone(&case), window)).await
+        };
+        let mut out = Vec::new();
+        for shard in r {
+            let oks = shard.iter().filter(|x| x.is_ok()).count();
+            if oks == 3 {
+                let [a, b, c] = shard.map(Result::unwrap);
+                if a.0.len() != b.0.len() || b.0.len() != c.0.len() || a.1 != b.1 || b.1 != c.1 {
+                    out.push("mixed".to_string());
+                    continue;
+                }
+                let tags = a.1.clone();
+                let kept: Vec<BA64> = [a.0, b.0, c.0].reconstruct();
+                out.push(if aad { format!("{};{}", show_vals(kept), show_vals(tags)) } else { show_vals(kept) });
+            } else if oks == 0 {
+                let waiting = shard.iter().filter(|x| matches!(x, Err(e) if e == "~")).count();
+                out.push(match waiting { 0 => "!", 3 => "~", _ => "mixed" }.into());
+            } else {
+                out.push("mixed".into());
+            }
+        }
+        out.join("/")
+    }
+
+    pub fn exec(req: &str) -> String {
+        let t: Vec<&str> = req.split(' ').collect();
+        assert_eq!(t[0], "c19.stall");
+        let func = t[1].to_string();
+        let mode = t[2].to_string();
+        let n: usize = t[3].parse().unwrap();
+        let dests = parse_lists(t[4]);
+        assert_eq!(dests.len(), n);
+        let hints: Vec<i64> = if t[5] == "-" { vec![] } else { t[5].split(',').map(|x| x.parse().unwrap()).collect() };
+        let errs: Vec<Option<usize>> = if t[6] == "-" { vec![] } else { t[6].split(',').map(|x| x.parse().ok()).collect() };
+        let stalls = parse_stalls(t[7]);
+        assert!(stalls.len() == n || t[7] == "-", "harness: one stall list per shard");
+        let case = Case { func, dests, hints, errs, stalls };
+        run_isolated(move || async move {
+            match n {
+                1 => run_n::<1>(mode, case).await,
+                2 => run_n::<2>(mode, case).await,
+                3 => run_n::<3>(mode, case).await,
+                4 => run_n::<4>(mode, case).await,
+                5 => run_n::<5>(mode, case).await,
+                _ => panic!("harness: unsupported shard count {n}"),
+            }
+        })
+    }
+
+    fn show_stalls(st: &[Vec<String>]) -> String {
+        st.iter().map(|l| if l.is_empty() { "-".to_string() } else { l.join(",") }).collect::<Vec<_>>().join("/")
+    }
+
+    /// a stall pattern for streams of the given item counts
+    fn gen_stalls(rng: &mut Rng, items: &[usize], kind: &str) -> Vec<Vec<String>> {
+        items
+            .iter()
+            .enumerate()
+            .map(|(s, &len)| match kind {
+                "none" => vec![],
+                "start" => vec!["0".to_string()],
+                "mid" => vec![(len / 2).to_string()],
+                "last" => vec![len.saturating_sub(1).to_string()],
+                "end" => vec![len.to_string()],
+                "every" => (0..=len).map(|i| i.to_string()).collect(),
+                "burst" => vec![(len / 2).to_string(); 3],
+                "one-shard" => if s == 0 { vec![(len / 2).to_string()] } else { vec![] },
+                "one-helper" => vec![format!("{}@{}", len / 2, s % 3)],
+                "delayed" => vec![format!("{}d", len / 2), format!("{len}d")],
+                _ => {
+                    let mut l = vec![];
+                    for i in 0..=len {
+                        if rng.below(3) == 0 {
+                            l.push(match rng.below(6) { 0 => format!("{i}d"), 1 => format!("{i}@{}", rng.below(3)), _ => i.to_string() });
+                        }
+                    }
+                    l
+                }
+            })
+            .collect()
+    }
+
+    pub fn generate(rng: &mut Rng, thorough: bool) -> Vec<String> {
+        let mut v = Vec::new();
+        let funcs = ["aad", "try", "stream"];
+        let kinds = ["start", "mid", "last", "end", "every", "burst", "one-shard", "one-helper", "delayed", "rand", "none"];
+        // the independent seed's witness shape first: two shards, six records each, one stall midway / at the start / before the end
+        for st in ["3/3", "0/0", "6/6", "3/-", "-/3@1"] {
+            v.push(format!("c19.stall aad sh 2 0,1,0,1,0,1/0,1,0,1,0,1 - - {st}"));
+        }
+        // every stall shape x function, small shard counts, all pickers
+        let mut i = 0usize;
+        for n in 1..=(if thorough { 5usize } else { 3 }) {
+            for kind in kinds {
+                for func in funcs {
+                    if !thorough && func != "aad" && (i % 2 == 1) {
+                        i += 1;
+                        continue;
+                    }
+                    let picker = ["rr", "rand", "leave", "one", "stay", "val"][i % 6];
+                    let sizes: Vec<usize> = (0..n).map(|s| if (i + s) % 7 == 0 { 0 } else { 1 + rng.usize_below(9) }).collect();
+                    let d = gen_dests(rng, n, &sizes, picker, (i % n) as u32);
+                    let st = gen_stalls(rng, &sizes, kind);
+                    let mode = if i % 4 == 3 { "mal" } else { "sh" };
+                    let hints = if func != "stream" && i % 5 == 0 { (0..n).map(|_| rng.below(4).to_string()).collect::<Vec<_>>().join(",") } else { "-".into() };
+                    v.push(format!("c19.stall {func} {mode} {n} {} {hints} - {}", show_lists(&d), show_stalls(&st)));
+                    i += 1;
+                }
+            }
+        }
+        // random: up to 5 shards, up to 40 records
+        for i in 0..(if thorough { 1500 } else { 60 }) {
+            let n = 1 + rng.usize_below(5);
+            let sizes: Vec<usize> = (0..n).map(|_| if rng.below(6) == 0 { 0 } else { rng.usize_below(41) }).collect();
+            let picker = *rng.pick(&["one", "rr", "stay", "leave", "rand", "rand", "val"]);
+            let target = rng.below(n as u64) as u32;
+            let d = gen_dests(rng, n, &sizes, picker, target);
+            let st = gen_stalls(rng, &sizes, "rand");
+            let func = funcs[if i % 2 == 0 { 0 } else { 1 + (i / 2) % 2 }];
+            let mode = if rng.below(4) == 0 { "mal" } else { "sh" };
+            v.push(format!("c19.stall {func} {mode} {n} {} - - {}", show_lists(&d), show_stalls(&st)));
+        }
+        // errors in a stalling stream: on every shard (nobody waits), positions before / between / after the stalls
+        for i in 0..(if thorough { 120 } else { 16 }) {
+            let n = 1 + rng.usize_below(4);
+            let sizes: Vec<usize> = (0..n).map(|_| 1 + rng.usize_below(8)).collect();
+            let d = gen_dests(rng, n, &sizes, "rand", 0);
+            let func = if i % 3 == 2 { "try" } else { "aad" };
+            let errs: Vec<usize> = (0..n).map(|s| rng.usize_below(sizes[s] + 1)).collect();
+            // the stream has one more item (the Err) than records
+            let items: Vec<usize> = sizes.iter().map(|l| l + 1).collect();
+            let st = gen_stalls(rng, &items, ["rand", "every", "start", "mid"][i % 4]);
+            if i % 4 == 3 {
+                // a stream longer than its hint instead of an Err item
+                let hints = (0..n).map(|s| format!("-{}", 1 + rng.usize_below(sizes[s]))).collect::<Vec<_>>().join(",");
+                let st = gen_stalls(rng, &sizes, "rand");
+                v.push(format!("c19.stall {func} sh {n} {} {hints} - {}", show_lists(&d), show_stalls(&st)));
+            } else {
+                let errs = errs.iter().map(|e| e.to_string()).collect::<Vec<_>>().join(",");
+                v.push(format!("c19.stall {func} sh {n} {} - {errs} {}", show_lists(&d), show_stalls(&st)));
+            }
+        }
+        // an error on ONE shard only, right after a stall (the peers wait: 3 s each)
+        for (i, n) in (if thorough { vec![2usize, 3, 3, 4, 5, 2] } else { vec![2usize, 3] }).into_iter().enumerate() {
+            let sizes: Vec<usize> = (0..n).map(|_| 2 + rng.usize_below(6)).collect();
+            let d = gen_dests(rng, n, &sizes, ["rand", "rr"][i % 2], 0);
+            let f = rng.usize_below(n);
+            let pos = [sizes[f] / 2, sizes[f]][i % 2];
+            let errs = (0..n).map(|s| if s == f { pos.to_string() } else { "x".to_string() }).collect::<Vec<_>>().join(",");
+            let st: Vec<Vec<String>> = (0..n).map(|s| if s == f { vec![pos.to_string()] } else { vec![(sizes[s] / 2).to_string()] }).collect();
+            v.push(format!("c19.stall {} sh {n} {} - {errs} {}", ["aad", "try"][i % 2], show_lists(&d), show_stalls(&st)));
+        }
+        v
+    }
+}
+
+#[test]
+fn verif_c19_aad() {
+    crate::ipa_verif::proto::run_suite("c19_aad", c19_aad::generate, c19_aad::exec);
+}
